@@ -221,6 +221,15 @@ func runC06(c *Ctx) {
 		if _, isP := flow.Peel(w.container).(*ssa.Parameter); isP {
 			continue
 		}
+		handedIn := false
+		for _, p := range w.fn.Params {
+			if isByteSlice(p.Type()) {
+				handedIn = true // the bytes walked are (a cut of) the caller's: judged at the call sites above
+			}
+		}
+		if handedIn {
+			continue
+		}
 		n++
 		key := fname(w.fn) + ":body-bytes-walked-in-place"
 		var bad, unk, descs []string
